@@ -87,6 +87,9 @@ type Ctx struct {
 	Extra      map[string]interface{}
 	Exhaustive bool
 	start      time.Time
+
+	pendingExtra     []pendingViol
+	distinctOverride int
 }
 
 func newCtx(id, tier string, seed uint64, level string, env *Env) *Ctx {
@@ -143,7 +146,7 @@ func (c *Ctx) binFor(rig string) string {
 	if rig == "ws" {
 		return c.Env.SimBin
 	}
-	b, err := c.Env.BuildRig(rig, true, "")
+	b, err := c.Env.BuildRig(rig, rig == "ps", "")
 	if err != nil {
 		harnessFail("%v", err)
 	}
@@ -305,9 +308,13 @@ func (c *Ctx) Finish() {
 		fmt.Printf("KNOWN-FINDING: property=%s %s %s\n", c.ID, k, c.KnownSeen[k])
 	}
 	wall := time.Since(c.start).Seconds()
+	distinct := len(c.sigs)
+	if c.distinctOverride > 0 {
+		distinct = c.distinctOverride
+	}
 	cov := map[string]interface{}{
 		"evaluations":         c.Evals,
-		"distinct_nontrivial": len(c.sigs),
+		"distinct_nontrivial": distinct,
 		"rule":                c.Rule,
 		"samples":             c.Samples,
 		"faults_fired":        c.Faults,
@@ -338,7 +345,7 @@ func (c *Ctx) Finish() {
 		harnessFail("cannot write evidence: %v", err)
 	}
 	fmt.Printf("%s %s: %d evaluations, %d distinct non-trivial signatures, %.1f simulated s, %d violation(s), %d known finding(s), %.1fs wall\n",
-		c.ID, c.Tier, c.Evals, len(c.sigs), float64(c.SimNs)/1e9, len(c.Violations), len(keys), wall)
+		c.ID, c.Tier, c.Evals, distinct, float64(c.SimNs)/1e9, len(c.Violations), len(keys), wall)
 	c.Env.Cleanup()
 	if len(c.Violations) > 0 {
 		os.Exit(1)
